@@ -70,6 +70,9 @@
 pub mod cbor;
 mod codec;
 mod handler;
+#[cfg(libp2p_verif)]
+#[doc(hidden)]
+pub mod verif_proto_a;
 #[cfg(feature = "json")]
 pub mod json;
 
